@@ -143,6 +143,31 @@ fn tap<'a>(kind: &str, b: &'a [u8]) -> (Outcome, Option<(&'a [u8], TapVal<'a>)>)
         "ext" => m(parse_tls_extension(b), TapVal::Ext),
         "ext_client" => m(parse_tls_client_hello_extension(b), TapVal::Ext),
         "ext_server" => m(parse_tls_server_hello_extension(b), TapVal::Ext),
+        "ext_tag" => {
+            // the public single-purpose parser for the extension type on the wire (each is itself a
+            // self-delimiting single-extension parser); other types go through the generic one
+            let t = if b.len() >= 2 { (b[0] as u16) << 8 | b[1] as u16 } else { 0xffff };
+            let f: fn(&[u8]) -> IResult<&[u8], TlsExtension> = match t {
+                0 => parse_tls_extension_sni,
+                1 => parse_tls_extension_max_fragment_length,
+                5 => parse_tls_extension_status_request,
+                10 => parse_tls_extension_elliptic_curves,
+                11 => parse_tls_extension_ec_point_formats,
+                13 => parse_tls_extension_signature_algorithms,
+                15 => parse_tls_extension_heartbeat,
+                22 => parse_tls_extension_encrypt_then_mac,
+                23 => parse_tls_extension_extended_master_secret,
+                35 => parse_tls_extension_session_ticket,
+                41 => parse_tls_extension_pre_shared_key,
+                42 => parse_tls_extension_early_data,
+                43 => parse_tls_extension_supported_versions,
+                44 => parse_tls_extension_cookie,
+                45 => parse_tls_extension_psk_key_exchange_modes,
+                51 => parse_tls_extension_key_share,
+                _ => parse_tls_extension_unknown,
+            };
+            m(f(b), TapVal::Ext)
+        }
         "sct" => m(parse_ct_signed_certificate_timestamp(b), TapVal::Sct),
         "sct_list" => m(parse_ct_signed_certificate_timestamp_list(b), TapVal::Scts),
         "dh" => m(parse_dh_params(b), TapVal::Dh),
@@ -266,7 +291,7 @@ pub fn execute(scn: &Scenario, ctx: &mut Ctx) {
         }
         // nothing outside the structure's declared length is consumed or referenced
         if let (Some(e), Some((consumed, _, _, _, val))) = (extent, v.as_ref()) {
-            if *consumed != e {
+            if *consumed > e {
                 ctx.violate(Prop::C06, "provenance/outside-declared", || format!("{}: the structure declares an extent of {} bytes, the parser consumed {} bytes (with {} bytes buffered)", kind, e, consumed, buf.len()));
             } else if let Some((_, label, _, l)) = visit::first_outside(&slices_of(val), buf.as_ptr() as usize, e) {
                 ctx.violate(Prop::C06, "provenance/outside-declared", || format!("{}: slice `{}` ({} bytes) reaches outside the structure's declared extent of {} bytes", kind, label, l, e));
